@@ -215,7 +215,7 @@ def main():
                 continue
             # refuted: replay natively before reporting
             d0, loc0 = bad[0]
-            if replayed >= 3 or (replayed >= 1 and violations >= 1 and time.time() > deadline + reserve * 0.4):
+            if replayed >= (2 if tier == "quick" else 3) or (violations >= 1 and time.time() > deadline - 30):
                 # enough reproduced evidence; remaining refutations are listed unreplayed
                 inconclusive.append((j.name, "refuted (%s at %s); not replayed (cap)" % (d0, loc0)))
                 continue
